@@ -14,7 +14,7 @@ class World(S.WorldComponent):
     theorems = ["flight_accounting", "timer_armed", "C02_drains_partial"]
     mix = [("reliable-heavy-loss", False, 3), ("reliable", False, 2), ("reliable-heavy-loss", True, 1), ("mixed-pr", False, 2)]
     quick = (32, 300)
-    thorough = (600, 600)
+    thorough = (300, 600)
     oracles = [S.oracle_no_crash, S.oracle_c02, S.oracle_recovers]
 
 
